@@ -117,13 +117,16 @@ def main():
                 continue
             # a call
             pre = None
-            writes = ('setitem', 'delitem', 'pop', 'setdefault', 'clear', 'badwrite')
-            reads = ('get', 'contains', 'minkey', 'maxkey', 'keys', 'len', 'iter', 'getitem', 'badget', 'badbound')
+            writes = ('setitem', 'delitem', 'pop', 'setdefault', 'clear', 'badwrite', 'insertu', 'popmin')
+            reads = ('get', 'contains', 'minkey', 'maxkey', 'keys', 'len', 'iter', 'getitem', 'badget', 'badbound',
+                     'bool', 'haskey', 'values', 'index')
             op = rng.choice(writes[:2] * 4 + writes[2:] + reads * 2)
             if kind == 'query':
                 op = rng.choice(['keys', 'keys', 'keys', 'minkey', 'maxkey', 'contains'])
             if is_set and op in ('pop', 'setdefault', 'get', 'getitem', 'badget'):
                 op = 'contains'
+            if is_set and op == 'insertu':
+                op = 'setitem'
             if op == 'clear' and rng.random() < 0.7:
                 op = 'setitem'
             k = rng.randint(1, nk)
@@ -175,6 +178,18 @@ def main():
                 elif op == 'clear':
                     t.clear()
                     present = set()
+                elif op == 'insertu':
+                    ev['res'] = ['v', int(t.insert(rk, emb.val(v)))]
+                    present.add(k)
+                elif op == 'popmin':
+                    ev['k'] = min(present) if present else 0
+                    if is_set:
+                        x = t.pop()
+                        ev['res'] = ['kv', emb.rk(x), 1]
+                    else:
+                        x = t.popitem()
+                        ev['res'] = ['kv', emb.rk(x[0]), emb.rv(x[1])]
+                    present.discard(min(present))
                 elif op == 'badwrite':
                     if is_set:
                         t.add(api.bad_key(fam))
@@ -221,6 +236,39 @@ def main():
                         ev['res'] = ['ks', [emb.rk(x) for x in t.iterkeys(**kw)]]
                 elif op == 'len':
                     ev['res'] = ['v', len(t)]
+                elif op == 'bool':
+                    ev['res'] = ['v', 1 if t else 0]
+                elif op == 'haskey':
+                    ev['res'] = ['v', 1 if t.has_key(rk) else 0]
+                elif op in ('values', 'index'):
+                    lo, hi = rng.randint(0, nk + 1), rng.randint(0, nk + 1)
+                    if rng.random() < 0.4:
+                        lo = hi = 0
+                    xlo, xhi = rng.random() < 0.3, rng.random() < 0.3
+                    ev.update(lo=lo, hi=hi, xlo=xlo, xhi=xhi)
+                    kw = dict(min=bound(lo), max=bound(hi), excludemin=xlo, excludemax=xhi)
+                    if op == 'values':
+                        if is_set:
+                            ev['res'] = ['ks', [1 for x in t.keys(**kw)]]
+                        elif rng.random() < 0.5:
+                            ev['res'] = ['ks', [emb.rv(x) for x in t.values(**kw)]]
+                        else:
+                            ev['res'] = ['ks', [emb.rv(x) for x in t.itervalues(**kw)]]
+                    else:
+                        i = rng.randint(-nk - 1, nk)
+                        ev['k'] = i
+                        try:
+                            if is_set:
+                                ev['res'] = ['kv', emb.rk(t.keys(**kw)[i]), 1]
+                            elif rng.random() < 0.5:
+                                x = t.items(**kw)[i]
+                                ev['res'] = ['kv', emb.rk(x[0]), emb.rv(x[1])]
+                            else:
+                                seq = t.keys(**kw)
+                                x = seq[i]
+                                ev['res'] = ['kv', emb.rk(x), emb.rv(t.values(**kw)[i])]
+                        except IndexError:
+                            ev['res'] = ['IndexError']
                 elif op == 'iter':
                     ev['res'] = ['ks', [emb.rk(x) for x in t]]
             except KeyError:
